@@ -3,6 +3,11 @@
 import json, sys
 sys.path.insert(0, '/verif/harness')
 from claims import CLAIMS, NOT_APPLICABLE, NOTES
+import re
+def streams_of(pid):
+    src = open('/verif/harness/streams/%s.py' % pid.lower()).read()
+    m = re.search(r'SPEC\s*=\s*\{.*?"streams"\s*:\s*\[(.*?)\]', src, re.S)
+    return " ".join(m.group(1).split()) if m else ""
 props = [json.loads(l) for l in open('/verif/properties.jsonl')]
 ids = [p['id'] for p in props]
 checks = []
@@ -17,7 +22,8 @@ for pid in ids:
             "replay_cmd_template": "./check %s --replay {path}" % pid,
             "engine": "coq-model+correspondence",
             "level_claimed": {"category": "proof", "text": c["text"], "design_ref": c.get("design_ref", "DESIGN.md section 5, " + pid)},
-            "level_note": c["note"],
+            "level_note": c["note"] + " Streams run by this check on every run: " + streams_of(pid) + " (DESIGN.md section 4 says which are "
+                          "correspondence streams and which observe the implementation only, through the property's oracle).",
             "technique": c.get("technique", "Coq 8.16 theorems over a hand-written Gallina model + differential correspondence (extracted OCaml model vs. freephil) on every run"),
         })
 na = [{"property_id": pid, "reason": NOT_APPLICABLE.get(pid, "check not built yet in this round; planned per DESIGN.md section 9")} for pid in ids if pid not in CLAIMS]
